@@ -68,6 +68,7 @@ def check(ctx):
     reqs = []; meta = []
     try:
         for ci in range(40 if ctx.quick() else 700):
+            vlib.pandas_mode(ci)
             g, ds = parseprops.make_case(rng, True)
             docset = []
             for fname, d, local in ds:
@@ -77,7 +78,11 @@ def check(ctx):
             shutil.rmtree(work, ignore_errors=True); os.makedirs(work)
             for name, d in docset:
                 path = os.path.join(work, name)
-                open(path, "w", encoding="utf-8").write(docs.render(d, rng, dict(prefix=rng.choice([None, "ua"]))))
+                text_ = docs.render(d, rng, dict(prefix=rng.choice([None, "ua"])))
+                if ci % 3 == 1:
+                    import random as _r
+                    text_ = docs.entityfy(text_, _r.Random(ci))       # spelled with entities of an internal DTD subset (same infoset)
+                open(path, "w", encoding="utf-8").write(text_)
                 x, j, fn = impl_helpers(path)
                 reqs.append([Sym("c18_helpers"), parsecmp.doc_sx(path, d)]); meta.append(("helpers", name, d, (x, j, fn)))
                 odd = (d.get("models") is None or len(d["models"]) != 1 or d.get("uris") is None or name.endswith("NodeSet2.xml"))
